@@ -696,7 +696,7 @@ func (n *NSQD) queueScanWorker(workCh chan *Channel, responseCh chan bool, close
 			if c.processDeferredQueue(now) {
 				dirty = true
 			}
-			verif.Ev("QSDone", "c", vc(c), "dirty", dirty)
+			verif.Ev("QSDone", "c", vc(c), "dirty", dirty, "t", now)
 			responseCh <- dirty
 		case <-closeCh:
 			return
